@@ -138,7 +138,11 @@ async def p_transfer_io(mpc):
     msg = await mpc.transfer(('hello', mpc.pid))
     o = await mpc.output(x * y[0][0] + y[1][1], receivers=[0], threshold=mpc.threshold)
     o2 = await mpc.output(y[1][0] + x)
-    return [m[1] for m in msg], o, o2
+    m = len(mpc.parties)
+    b1 = await mpc.transfer(('bcast', mpc.pid), senders=0)                       # broadcast from party 0
+    b2 = await mpc.transfer(mpc.pid * 10, receivers=m - 1)                        # everybody to the last party
+    b3 = await mpc.transfer(mpc.pid + 100, senders=[0, m - 1], receivers=[0])    # two senders, one receiver
+    return [m_[1] for m_ in msg], o, o2, b1, b2, b3
 
 
 async def p_two_inprods(mpc):
@@ -237,7 +241,10 @@ def expected(name, m, pid, t=None):
         y00, y01 = 0, 2             # from sender 0
         y10, y11 = m - 1, 2         # from sender m-1
         o = x * y00 + y11
-        return ([i for i in range(m)], o if pid == 0 else None, y10 + x)
+        b1 = ('bcast', 0)
+        b2 = [i * 10 for i in range(m)] if pid == m - 1 else []          # list of senders: parties that are not receivers get an empty list
+        b3 = ([100, m - 1 + 100] if m > 1 else [100, 100]) if pid == 0 else []
+        return ([i for i in range(m)], o if pid == 0 else None, y10 + x, b1, b2, b3)
     if name == 'two_inprods':
         x, u = 3, 4
         p = x * 5 + x * 2
